@@ -1080,3 +1080,344 @@ Proof.
   split; [rewrite H4; exact (header_first_nonempty_lemma p_docurl (p0 :: rest))|].
   auto.
 Qed.
+
+(* ------------------------------------------------------------------ well-formedness of the result *)
+Lemma merge_fuel_ok : forall n ps q, merge_fuel n ps = MOk q -> ok q.
+Proof.
+  assert (P : forall ps q, merge_pass ps = MOk q -> ok q).
+  { intros ps q H. unfold merge_pass in H. destruct ps as [|p0 rest]; [discriminate|].
+    destruct (compat_all p0 rest); try discriminate. injection H as <-.
+    apply (merge_srcs_spec (p0 :: rest) _ (ok_combine_headers p0 (p0 :: rest))). }
+  induction n as [|n IH]; intros ps q H; cbn [merge_fuel] in H;
+    destruct (merge_pass ps) as [p| | |] eqn:E; try discriminate;
+    destruct (existsb is_zero_sample (p_sample p)); try discriminate.
+  - inversion H; subst. eauto.
+  - eauto.
+  - inversion H; subst. eauto.
+Qed.
+
+(* ------------------------------------------------------------------ keys stay pairwise distinct *)
+Record keys_ok (st : profile) : Prop := {
+  k_fn : NoDup (map fkey_of (p_function st));
+  k_mp : NoDup (map mkey_of (p_mapping st));
+  k_lc : NoDup (map (lkey_of st) (p_location st));
+  k_sm : NoDup (map skey_of_sample (p_sample st))
+}.
+
+Lemma map_function_rec_keys : forall st f st' g,
+  ok st -> keys_ok st -> map_function_rec st f = (st', g) -> keys_ok st'.
+Proof.
+  intros st f st' g Hok [K1 K2 K3 K4] H. unfold map_function_rec in H.
+  destruct (find (fun g0 => fkey_eqb (fkey_of g0) (fkey_of f)) (p_function st)) as [g0|] eqn:E;
+    inversion H; subst; clear H.
+  - split; assumption.
+  - split; cbn; try assumption.
+    apply (nodup_key_snoc fkey_of fkey_eqb _ (new_function (next_id (p_function st)) f) fkey_eqb_spec K1 E).
+Qed.
+
+Lemma map_function_keys : forall st src fid st' g,
+  ok st -> keys_ok st -> map_function st src fid = (st', g) -> keys_ok st'.
+Proof.
+  intros st src fid st' g Hok K H. unfold map_function in H.
+  destruct (lookup_fn src fid); [eapply map_function_rec_keys; eauto | inversion H; subst; exact K].
+Qed.
+
+Lemma lkeys_ext : forall st st',
+  ok st -> ext st st' -> map (lkey_of st') (p_location st) = map (lkey_of st) (p_location st).
+Proof.
+  intros st st' Hok He. apply map_ext_in. intros l Hl. apply lkey_ext; auto.
+  pose proof (ok_refs _ Hok) as R. rewrite Forall_forall in R. auto.
+Qed.
+
+Lemma map_mapping_rec_keys : forall st m st' r,
+  ok st -> keys_ok st -> map_mapping_rec st m = (st', r) -> keys_ok st'.
+Proof.
+  intros st m st' r Hok [K1 K2 K3 K4] H. unfold map_mapping_rec in H.
+  destruct (find (fun g0 => mkey_eqb (mkey_of g0) (mkey_of m)) (p_mapping st)) as [g0|] eqn:E;
+    inversion H; subst; clear H.
+  - split; assumption.
+  - split; cbn; try assumption.
+    + apply (nodup_key_snoc mkey_of mkey_eqb _ (new_mapping (next_id (p_mapping st)) m) mkey_eqb_spec K2 E).
+    + pose proof (lkeys_ext st (with_mapping st (p_mapping st ++ [new_mapping (next_id (p_mapping st)) m]))
+                    Hok (ext_with_mapping st _)) as L. cbn in L. rewrite L. exact K3.
+Qed.
+
+Lemma map_mapping_keys : forall st src mid st' r,
+  ok st -> keys_ok st -> map_mapping st src mid = (st', r) -> keys_ok st'.
+Proof.
+  intros st src mid st' r Hok K H. unfold map_mapping in H.
+  destruct (lookup_map src mid); [eapply map_mapping_rec_keys; eauto | inversion H; subst; exact K].
+Qed.
+
+Lemma map_lines_keys : forall src lns st st' r,
+  ok st -> keys_ok st -> map_lines st src lns = (st', r) -> keys_ok st'.
+Proof.
+  intros src. induction lns as [|ln lns IH]; intros st st' r Hok K H; cbn [map_lines] in H.
+  - inversion H; subst. exact K.
+  - destruct (map_function st src (ln_fn ln)) as [st1 fid] eqn:E1.
+    destruct (map_lines st1 src lns) as [st2 r'] eqn:E2. inversion H; subst.
+    destruct (map_function_spec _ _ _ _ _ Hok E1) as (A1 & _).
+    exact (IH _ _ _ A1 (map_function_keys _ _ _ _ _ Hok K E1) E2).
+Qed.
+
+Lemma map_location_keys : forall st src lid st' g,
+  ok st -> keys_ok st -> map_location st src lid = (st', g) -> keys_ok st'.
+Proof.
+  intros st src lid st' g Hok K H. unfold map_location in H.
+  destruct (lookup_loc src lid) as [l|]; [|inversion H; subst; exact K].
+  unfold map_location_rec in H.
+  destruct (map_mapping st src (l_mapping l)) as [st1 [mid off]] eqn:E1.
+  destruct (map_lines st1 src (l_lines l)) as [st2 lines] eqn:E2.
+  destruct (map_mapping_spec _ _ _ _ _ _ Hok E1) as (A1 & _).
+  pose proof (map_mapping_keys _ _ _ _ _ Hok K E1) as K1.
+  pose proof (map_lines_keys _ _ _ _ _ A1 K1 E2) as [L1 L2 L3 L4].
+  match type of H with context [find ?f ?l] => destruct (find f l) as [g0|] eqn:E end;
+    inversion H; subst; clear H.
+  - split; assumption.
+  - split; cbn; try assumption.
+    match type of E with find (fun g0 => lkey_eqb (lkey_of st2 g0) (lkey_of st2 ?x)) _ = None =>
+      exact (nodup_key_snoc (lkey_of st2) lkey_eqb _ x lkey_eqb_spec L3 E) end.
+Qed.
+
+Lemma map_locs_keys : forall src ids st st' r,
+  ok st -> keys_ok st -> map_locs st src ids = (st', r) -> keys_ok st'.
+Proof.
+  intros src. induction ids as [|id ids IH]; intros st st' r Hok K H; cbn [map_locs] in H.
+  - inversion H; subst. exact K.
+  - destruct (map_location st src id) as [st1 id'] eqn:E1.
+    destruct (map_locs st1 src ids) as [st2 r'] eqn:E2. inversion H; subst.
+    destruct (map_location_spec _ _ _ _ _ Hok E1) as (A1 & _).
+    exact (IH _ _ _ A1 (map_location_keys _ _ _ _ _ Hok K E1) E2).
+Qed.
+
+Lemma map_skey_upd_first : forall hit v l,
+  map skey_of_sample (upd_first hit (add_to_sample v) l) = map skey_of_sample l.
+Proof.
+  intros hit v. induction l as [|x r IH]; cbn [upd_first map]; [reflexivity|].
+  destruct (hit x); cbn [map]; [reflexivity | rewrite IH; reflexivity].
+Qed.
+
+Lemma skey_new_sample : forall locs s, skey_of_sample (new_sample locs s) = skey_of locs s.
+Proof.
+  intros locs s. unfold skey_of_sample, skey_of. rewrite numlabels_new_sample. reflexivity.
+Qed.
+
+Lemma map_sample_keys : forall st src s, ok st -> keys_ok st -> keys_ok (map_sample st src s).
+Proof.
+  intros st src s Hok K. unfold map_sample.
+  destruct (map_locs st src (s_loc s)) as [st1 locs] eqn:E.
+  pose proof (map_locs_keys _ _ _ _ _ Hok K E) as [K1 K2 K3 K4].
+  destruct (existsb _ (p_sample st1)) eqn:Ex.
+  - split; cbn; try assumption. rewrite map_skey_upd_first. exact K4.
+  - split; cbn; try assumption.
+    rewrite existsb_find in Ex.
+    match type of Ex with context [find ?f ?l] => destruct (find f l) eqn:F; [discriminate|] end.
+    rewrite <- (skey_new_sample locs s) in F.
+    exact (nodup_key_snoc skey_of_sample skey_eqb _ (new_sample locs s) skey_eqb_spec K4 F).
+Qed.
+
+Lemma merge_samples_keys : forall src l st,
+  ok st -> keys_ok st -> keys_ok (fold_left (merge_sample src) l st).
+Proof.
+  intros src. induction l as [|s l IH]; intros st0 A1 K1; cbn [fold_left]; [exact K1|].
+  destruct (merge_sample_spec st0 src s A1) as (B1 & _).
+  apply IH; [exact B1|]. unfold merge_sample. destruct (is_zero_sample s); [exact K1|].
+  apply map_sample_keys; assumption.
+Qed.
+
+Lemma merge_src_keys : forall st src, ok st -> keys_ok st -> keys_ok (merge_src st src).
+Proof.
+  intros st src Hok K. unfold merge_src.
+  destruct (eager_first_mapping_spec st src Hok) as (A1 & _).
+  apply merge_samples_keys; [exact A1|].
+  unfold eager_first_mapping. destruct (p_mapping st); [|exact K].
+  destruct (p_mapping src) as [|m r]; [exact K|].
+  destruct (map_mapping_rec st m) as [st1 r1] eqn:E. cbn. exact (map_mapping_rec_keys _ _ _ _ Hok K E).
+Qed.
+
+Lemma merge_srcs_keys : forall l st, ok st -> keys_ok st -> keys_ok (fold_left merge_src l st).
+Proof.
+  induction l as [|p l IH]; intros st O K; cbn [fold_left]; [exact K|].
+  destruct (merge_src_spec st p O) as (B1 & _).
+  apply IH; [exact B1 | apply merge_src_keys; assumption].
+Qed.
+
+Lemma merge_pass_keys : forall ps q, merge_pass ps = MOk q -> keys_ok q.
+Proof.
+  intros ps q H. unfold merge_pass in H. destruct ps as [|p0 rest]; [discriminate|].
+  destruct (compat_all p0 rest); try discriminate. injection H as <-.
+  apply (merge_srcs_keys (p0 :: rest)); [apply ok_combine_headers|]. split; cbn; constructor.
+Qed.
+
+Lemma merge_fuel_keys : forall n ps q, merge_fuel n ps = MOk q -> keys_ok q.
+Proof.
+  induction n as [|n IH]; intros ps q H; cbn [merge_fuel] in H;
+    destruct (merge_pass ps) as [p| | |] eqn:E; try discriminate;
+    destruct (existsb is_zero_sample (p_sample p)); try discriminate.
+  - inversion H; subst. eapply merge_pass_keys; eauto.
+  - eauto.
+  - inversion H; subst. eapply merge_pass_keys; eauto.
+Qed.
+
+(* ------------------------------------------------------------------ equal identities => equal keys
+   (the direction that needs the tables to be free of duplicates) *)
+Lemma fn_ref_inj : forall st a b,
+  ok st -> keys_ok st -> inr a (p_function st) -> inr b (p_function st) ->
+  option_map fkey_of (lookup_fn st a) = option_map fkey_of (lookup_fn st b) -> a = b.
+Proof.
+  intros st a b Hok K Ha Hb E.
+  exact (ref_inj f_id fkey_of (p_function st) a b (ok_fn _ Hok) (k_fn _ K) Ha Hb E).
+Qed.
+
+Lemma map_ref_inj : forall st a b,
+  ok st -> keys_ok st -> inr a (p_mapping st) -> inr b (p_mapping st) ->
+  option_map mkey_of (lookup_map st a) = option_map mkey_of (lookup_map st b) -> a = b.
+Proof.
+  intros st a b Hok K Ha Hb E.
+  exact (ref_inj m_id mkey_of (p_mapping st) a b (ok_mp _ Hok) (k_mp _ K) Ha Hb E).
+Qed.
+
+Lemma line_slots_inj : forall st la lb,
+  ok st -> keys_ok st ->
+  Forall (fun ln => inr (ln_fn ln) (p_function st)) la ->
+  Forall (fun ln => inr (ln_fn ln) (p_function st)) lb ->
+  map (line_ident_of st) la = map (line_ident_of st) lb -> map line_slots la = map line_slots lb.
+Proof.
+  intros st la lb Hok K Ha. revert lb. induction Ha as [|x la Hx Ha IH]; intros lb Hb E.
+  - destruct lb; [reflexivity | discriminate].
+  - destruct lb as [|y lb]; [discriminate|]. inversion Hb as [|? ? Hy Hb']; subst.
+    cbn [map] in *. inversion E as [[E1 E2]]. f_equal; [|apply IH; assumption].
+    unfold line_ident_of, line_ident_of_slots, line_slots in *. inversion E1 as [[F1 F2 F3]].
+    rewrite (fn_ref_inj st (ln_fn x) (ln_fn y)); auto. congruence.
+Qed.
+
+Lemma lkey_of_ident : forall st a b,
+  ok st -> keys_ok st -> loc_refs_ok st a -> loc_refs_ok st b ->
+  frame_ident_of st a = frame_ident_of st b -> lkey_of st a = lkey_of st b.
+Proof.
+  intros st a b Hok K [Ha1 Ha2] [Hb1 Hb2] E. unfold frame_ident_of in E.
+  inversion E as [[E1 E2 E3 E4]]. unfold lkey_of.
+  assert (M : l_mapping a = l_mapping b) by (apply (map_ref_inj st); auto).
+  rewrite (line_slots_inj st _ _ Hok K Ha2 Hb2 E3), E4, <- M. rewrite <- M in E2. rewrite E2.
+  reflexivity.
+Qed.
+
+Lemma frame_idents_nodup : forall st, ok st -> keys_ok st -> NoDup (map (frame_ident_of st) (p_location st)).
+Proof.
+  intros st Hok K. apply (NoDup_map_inj_on (lkey_of st)); [apply (k_lc _ K)|].
+  intros x y Hx Hy E. pose proof (ok_refs _ Hok) as R. rewrite Forall_forall in R.
+  apply lkey_of_ident; auto.
+Qed.
+
+Lemma loc_ref_inj : forall st a b,
+  ok st -> keys_ok st -> inr a (p_location st) -> inr b (p_location st) ->
+  frames_of_id st a = frames_of_id st b -> a = b.
+Proof.
+  intros st a b Hok K Ha Hb E.
+  apply (ref_inj l_id (frame_ident_of st) (p_location st) a b (ok_lc _ Hok) (frame_idents_nodup st Hok K) Ha Hb).
+  unfold frames_of_id in E. change (lookup0 l_id (p_location st)) with (lookup_loc st).
+  destruct (lookup_loc st a); destruct (lookup_loc st b); cbn; congruence.
+Qed.
+
+Lemma frames_of_id_single : forall st id, ok st -> 1 <= id <= Z.of_nat (List.length (p_location st)) ->
+  exists f, frames_of_id st id = [f].
+Proof.
+  intros st id Hok Hr. destruct (lookup0_range l_id (p_location st) id (ok_lc _ Hok) Hr) as [x [Hx _]].
+  unfold frames_of_id. change (lookup_loc st id) with (lookup0 l_id (p_location st) id). rewrite Hx. eauto.
+Qed.
+
+Lemma stack_ident_inj_nz : forall st a b,
+  ok st -> keys_ok st ->
+  Forall (fun id => 1 <= id <= Z.of_nat (List.length (p_location st))) a ->
+  Forall (fun id => 1 <= id <= Z.of_nat (List.length (p_location st))) b ->
+  stack_ident_of st a = stack_ident_of st b -> a = b.
+Proof.
+  intros st a b Hok K Ha. revert b. unfold stack_ident_of.
+  induction Ha as [|x a Hx Ha IH]; intros b Hb E.
+  - destruct b as [|y b]; [reflexivity|]. inversion Hb as [|? ? Hy _]; subst.
+    destruct (frames_of_id_single st y Hok Hy) as [f Hf]. cbn in E. rewrite Hf in E. discriminate.
+  - destruct (frames_of_id_single st x Hok Hx) as [fx Hfx].
+    destruct b as [|y b]; cbn [flat_map] in E; [rewrite Hfx in E; discriminate|].
+    inversion Hb as [|? ? Hy Hb']; subst.
+    destruct (frames_of_id_single st y Hok Hy) as [fy Hfy].
+    rewrite Hfx, Hfy in E. cbn in E. inversion E as [[E1 E2]].
+    f_equal; [|apply IH; assumption].
+    apply (loc_ref_inj st); auto; unfold inr; try lia. rewrite Hfx, Hfy, E1. reflexivity.
+Qed.
+
+Lemma filter_nz_range : forall {A} (l : list A) ids,
+  Forall (fun id => inr id l) ids ->
+  Forall (fun id => 1 <= id <= Z.of_nat (List.length l)) (filter (fun id => negb (id =? 0)) ids).
+Proof.
+  intros A l ids H. induction H as [|x r Hx Hr IH]; cbn; [constructor|].
+  destruct (x =? 0) eqn:E; cbn; [exact IH|]. apply Z.eqb_neq in E. constructor; [|exact IH].
+  unfold inr in Hx. lia.
+Qed.
+
+Lemma skey_of_ident : forall st s1 s2,
+  ok st -> keys_ok st -> sample_refs_ok st s1 -> sample_refs_ok st s2 ->
+  sample_ident_of st s1 = sample_ident_of st s2 -> skey_of_sample s1 = skey_of_sample s2.
+Proof.
+  intros st s1 s2 Hok K H1 H2 E. unfold sample_ident_of, labels_ident_of in E.
+  inversion E as [[E1 E2 E3]]. unfold skey_of_sample, skey_of. rewrite E2, E3. f_equal. f_equal.
+  apply (stack_ident_inj_nz st); auto using filter_nz_range.
+  rewrite !stack_ident_filter. exact E1.
+Qed.
+
+(* C03, nothing is duplicated: the result has at most one sample per (stack, label set) *)
+Theorem merge_distinct_lemma : forall ps q,
+  merge ps = MOk q -> NoDup (map (sample_ident_of q) (p_sample q)).
+Proof.
+  intros ps q H. pose proof (merge_fuel_ok _ _ _ H) as Hok. pose proof (merge_fuel_keys _ _ _ H) as K.
+  apply (NoDup_map_inj_on skey_of_sample); [apply (k_sm _ K)|].
+  intros x y Hx Hy E. pose proof (ok_smp _ Hok) as R. rewrite Forall_forall in R.
+  apply (skey_of_ident q); auto.
+Qed.
+
+(* ------------------------------------------------------------------ the headline statement *)
+Lemma wt_list_none : forall p l k j,
+  (forall s, In s l -> sample_ident_of p s <> k) -> wt_list p l k j = 0.
+Proof.
+  intros p l k j. induction l as [|x r IH]; intros H; unfold wt_list; cbn [map]; [reflexivity|].
+  rewrite sumZ_cons. destruct (sid_eqb (sample_ident_of p x) k) eqn:E.
+  - apply sid_eqb_spec in E. exfalso. apply (H x); [left; reflexivity | exact E].
+  - fold (wt_list p r k j). rewrite IH; [reflexivity|]. intros s Hs. apply H. right. exact Hs.
+Qed.
+
+Lemma wt_list_unique : forall p l k j s,
+  NoDup (map (sample_ident_of p) l) -> In s l -> sample_ident_of p s = k ->
+  wt_list p l k j = nth j (s_val s) 0.
+Proof.
+  intros p l k j s. induction l as [|x r IH]; intros Hnd Hin Hk; [contradiction|].
+  cbn [map] in Hnd. inversion Hnd as [|? ? Hnot Hnd']; subst.
+  unfold wt_list. cbn [map]. rewrite sumZ_cons. fold (wt_list p r (sample_ident_of p s) j).
+  destruct Hin as [->|Hin].
+  - replace (sid_eqb (sample_ident_of p s) (sample_ident_of p s)) with true
+      by (symmetry; apply sid_eqb_spec; reflexivity).
+    rewrite wt_list_none; [lia|]. intros t Ht E. apply Hnot. rewrite <- E. apply in_map. exact Ht.
+  - destruct (sid_eqb (sample_ident_of p x) (sample_ident_of p s)) eqn:E.
+    + apply sid_eqb_spec in E. exfalso. apply Hnot. rewrite E. apply in_map. exact Hin.
+    + rewrite IH; auto.
+Qed.
+
+Theorem merge_exact_lemma : forall ps q k,
+  merge ps = MOk q ->
+  (exists s, In s (p_sample q) /\ sample_ident_of q s = k /\ is_zero_sample s = false /\
+             (forall s', In s' (p_sample q) -> sample_ident_of q s' = k -> s' = s) /\
+             forall j, eq64 (nth j (s_val s) 0) (sumZ (map (fun p => wt p k j) ps)))
+  \/ ((forall s, In s (p_sample q) -> sample_ident_of q s <> k) /\
+      forall j, eq64 0 (sumZ (map (fun p => wt p k j) ps))).
+Proof.
+  intros ps q k H. pose proof (merge_distinct_lemma ps q H) as Hnd.
+  destruct (in_dec sample_ident_dec k (map (sample_ident_of q) (p_sample q))) as [Hin|Hout].
+  - left. apply in_map_iff in Hin. destruct Hin as [s [Hk Hs]]. exists s.
+    split; [exact Hs|]. split; [exact Hk|]. split; [eapply merge_no_zero_lemma; eauto|]. split.
+    + intros s' Hs' Hk'. apply (nodup_key_inj (sample_ident_of q) (p_sample q)); auto. congruence.
+    + intros j. rewrite <- (wt_list_unique q (p_sample q) k j s Hnd Hs Hk).
+      apply (merge_conserves_lemma ps q H k j).
+  - right. split.
+    + intros s Hs E. apply Hout. rewrite <- E. apply in_map. exact Hs.
+    + intros j. rewrite <- (wt_list_none q (p_sample q) k j).
+      * apply (merge_conserves_lemma ps q H k j).
+      * intros s Hs E. apply Hout. rewrite <- E. apply in_map. exact Hs.
+Qed.
